@@ -133,13 +133,6 @@ struct CaseSink {
     if (eo != outcome) dev(std::move(a), "outcome", bj::value(eo), bj::value(outcome));
     else if (!exp_refused && exp_mod != got_mod) dev(std::move(a), "characteristic", jint(exp_mod), jint(got_mod));
   }
-  void keep(const char* via, long lo, long hi, const char* what, const Z& arg, const Z& exp, const Z& got) {
-    count("setchar_keep");
-    if (exp == got) return;
-    auto a = act("setchar_keep", via);
-    a["to_lo"] = lo; a["to_hi"] = hi; a["what"] = what; a["arg"] = jint(arg);
-    dev(std::move(a), "ret", jint(exp), jint(got));
-  }
 };
 
 struct Runner {
@@ -147,7 +140,8 @@ struct Runner {
   bool single = false;   // Z_p-like interface: get_partial_inverse(Q) / identity(Q) "for interface purposes", Q = p only
   std::function<bool(long, long)> supports;
   std::function<void(const Plan&, CaseSink&)> run;
-  // tries to change the characteristic of a live field f = [pl.lo, pl.hi] to [lo, hi]; null for compile-time classes
+  // tries to change the characteristic of a live field f = [pl.lo, pl.hi] to [lo, hi] and compares the outcome only
+  // (accepted with the right characteristic / refused with std::invalid_argument); null for compile-time classes
   std::function<void(const Plan&, const bj::object& once, CaseSink&)> setchar;
 };
 
@@ -180,13 +174,8 @@ Runner elem_runner(bool single, bool runtime) {
         std::string outcome = try_set([&] { Tr::init(lo, hi); });
         bool refused = g.at("refused").as_bool();
         s.setchar("initialize", lo, hi, refused, fromJ(g.at("mod")), outcome, outcome == "ok" ? toZ(E::get_characteristic()) : Z(0));
-        if (refused && outcome != "ok") {  // refused: the field is unchanged
-          s.keep("initialize", lo, hi, "get_characteristic", Z(0), pl.P, toZ(E::get_characteristic()));
-          for (auto& iv : once.at("invtab").as_array()) {
-            Z x = fromJ(iv.as_object().at("x"));
-            s.keep("initialize", lo, hi, "get_inverse", x, fromJ(iv.as_object().at("v")), elem_val(Tr::make(x).get_inverse()));
-          }
-        }
+        // nothing is specified about the field after a refusal: it is not used again before the accepted
+        // initialize at the top of the loop / below
       }
       Tr::init(pl.lo, pl.hi);
       *cur = {pl.lo, pl.hi};
@@ -220,13 +209,7 @@ Runner op_runner(bool single, bool runtime) {
         else outcome = try_set([&] { o.set_characteristic(static_cast<int>(lo), static_cast<int>(hi)); });
         bool refused = g.at("refused").as_bool();
         s.setchar("set_characteristic", lo, hi, refused, fromJ(g.at("mod")), outcome, outcome == "ok" ? toZ(o.get_characteristic()) : Z(0));
-        if (refused && outcome != "ok") {
-          s.keep("set_characteristic", lo, hi, "get_characteristic", Z(0), pl.P, toZ(o.get_characteristic()));
-          for (auto& iv : once.at("invtab").as_array()) {
-            Z x = fromJ(iv.as_object().at("x"));
-            s.keep("set_characteristic", lo, hi, "get_inverse", x, fromJ(iv.as_object().at("v")), toZ(o.get_inverse(fromZ<typename Tr::El>(x))));
-          }
-        }
+        // nothing is specified about the object after a refusal: `o` is discarded
         // constructor with the interval
         std::string oc = try_set([&] { typename Tr::O o2 = Tr::make(lo, hi); (void)o2; });
         if (!(std::is_same_v<typename Tr::O, pf::Zp_field_operators<>> && lo == 0))   // Zp_field_operators(0): "no characteristic yet"
@@ -258,7 +241,6 @@ Runner coh_zp_runner() {
       std::string outcome = try_set([&] { o.init(static_cast<int>(lo)); });
       bool refused = g.at("refused").as_bool();
       s.setchar("init", lo, hi, refused, fromJ(g.at("mod")), outcome, outcome == "ok" ? toZ(o.characteristic()) : Z(0));
-      if (refused && outcome != "ok") s.keep("init", lo, hi, "characteristic", Z(0), pl.P, toZ(o.characteristic()));
     }
   };
   return r;
